@@ -1452,7 +1452,6 @@ PARTS = {
                                run_mat4_inverse_full),
     'vec_float': (cases_vec_float, run_vec_float),
 }
-BLOCK_SIZE = {'mat4_inverse_full_grid': 6561}
 THOROUGH_ONLY = ('mat4_inverse_full_grid',)
 
 
